@@ -205,3 +205,24 @@ def c06(r):
     r.exhaustive = True
     r.extra['bounds'] = 'all for headers of the lattice {-2..3, null, MAX-2..MAX, MIN..MIN+2} x 7 steps x 3 directions; forall orders/writes; break/continue/return at the bottom of nestings of depth <= %d' % depth
     r.conform(scs)
+
+
+@prop('C08')
+def c08(r):
+    r.assumptions += ['a declared but unassigned local reads as a null of unspecified type (wildcard in the ideal layer)']
+    h = 2 if r.quick else 3
+    scs = r.gen('Gen_C08', 'Gen_C08.cfg', env={'GEN_DEPTH': str(h)}, timeout=3000)
+    r.exhaustive = True
+    r.extra['bounds'] = 'all call histories of length <= %d from a pool of 15 calls x 15 observed calls; loop re-evaluation; recursion depth 1,2,254..257,300; isolation rejects' % h
+    r.conform(scs)
+
+
+@prop('C05')
+def c05(r):
+    r.assumptions += ['objects (module handles) are shared by reference as documented and are covered by C17, not here']
+    r.mc('MC_Kleene', 'MC_Kleene.cfg', 'LVALUE operand-reuse model: constants and variables are never overwritten by an operator result')
+    h = 2 if r.quick else 3
+    scs = r.gen('Gen_C05', 'Gen_C05.cfg', env={'GEN_DEPTH': str(h)}, timeout=3000)
+    r.exhaustive = True
+    r.extra['bounds'] = '6 value types x all statement sequences of length <= %d from an alias-stress pool of 17-27 statements, dump after every statement' % h
+    r.conform(scs)
